@@ -108,7 +108,7 @@ ALL_CROPS = ["Barley", "BarleyGDD", "Cotton", "CottonGDD", "Default", "DryBean",
              "Soybean", "SoybeanGDD", "SugarBeet", "SugarBeetGDD", "SugarBeetGDD_UK", "SugarCane", "Sunflower",
              "SunflowerGDD", "Tomato", "TomatoGDD", "Wheat", "WheatGDD", "WheatGDD_1dec", "HydWheatGDD", "WheatLongGDD",
              "localpaddy", "MaizeChampionGDD", "Tef", "AlfalfaGDD", "Cassava"]
-IWC_SPECS = (["L|Prop|WP", "L|Prop|FC", "L|Prop|SAT", "L|Prop|mix", "L|Pct|0", "L|Pct|100", "L|Pct|mix", "L|Num"]
+IWC_SPECS = (["L|Prop|WP", "L|Prop|FC", "L|Prop|SAT", "L|Prop|mix", "L|Pct|0", "L|Pct|100", "L|Pct|mix", "L|Num", "Lrev|Prop|mix", "Lrev|Pct|mix", "Lrev|Num"]
              + [f"D|{t}|{n}" for n in (1, 2, 3, 4) for t in ("Prop", "Pct", "Num")])
 DEPTH_SETS = {1: [0.3], 2: [0.2, 0.8], 3: [0.0, 0.5, 1.0], 4: [0.1, 0.4, 0.9, 2.5]}
 TEX_SAND = [0, 5, 20, 40, 60, 75, 90, 100]
@@ -187,17 +187,19 @@ def iwc_args(spec, specs_by_layer, nlay):
     nums_ok = hi > lo
     cyc = ["WP", "FC", "SAT", "FC"]
     pcts = [20, 80, 50, 100]
-    if p[0] == "L":
+    if p[0] in ("L", "Lrev"):
         L = list(range(1, nlay + 1))
+        # Lrev: the same layer -> value assignment, the layers listed from the bottom up (the order of the list carries no meaning)
+        rev = (lambda t: (t[0], t[1], list(reversed(t[2])), list(reversed(t[3])))) if p[0] == "Lrev" else (lambda t: t)
         if p[1] == "Prop":
             v = [p[2]] * nlay if p[2] != "mix" else [cyc[i % 4] for i in range(nlay)]
-            return ("Prop", "Layer", L, v)
+            return rev(("Prop", "Layer", L, v))
         if p[1] == "Pct":
             v = [int(p[2])] * nlay if p[2] != "mix" else [[35, 0, 100][i % 3] for i in range(nlay)]
-            return ("Pct", "Layer", L, v)
+            return rev(("Pct", "Layer", L, v))
         if not nums_ok:
             return None
-        return ("Num", "Layer", L, [round(lo + (hi - lo) * f, 4) for f in [0.3, 0.7, 0.5][:nlay]])
+        return rev(("Num", "Layer", L, [round(lo + (hi - lo) * f, 4) for f in [0.3, 0.7, 0.5][:nlay]]))
     n = int(p[2])
     D = DEPTH_SETS[n]
     if p[1] == "Prop":
